@@ -58,6 +58,7 @@ type Contract struct {
 	Pos          string
 	Pure         bool
 	Witness      []string
+	ReadOnlyHeap bool
 	decl         *ast.FuncDecl
 }
 
@@ -320,7 +321,7 @@ func (e *Engine) scanGlobals() {
 var clauseKeywords = map[string]bool{"func": true, "theorem": true, "global": true, "props": true, "requires": true,
 	"ensures": true, "panics": true, "modifies": true, "decreases": true, "yields": true, "loop": true, "invariant": true,
 	"let": true, "split": true, "mode": true, "established-by": true, "thin": true, "trusted": true, "assert": true,
-	"ensures-notrace": true, "modifies-heap": true, "witness": true, "callback": true}
+	"ensures-notrace": true, "modifies-heap": true, "witness": true, "callback": true, "readonly-heap": true}
 
 type rawClause struct {
 	kw   string
@@ -461,6 +462,8 @@ func (e *Engine) loadContracts() error {
 						for _, m := range strings.Fields(strings.ReplaceAll(rc.text, ",", " ")) {
 							cur.Modifies[strings.TrimPrefix(m, "*")] = true
 						}
+					case "readonly-heap":
+						cur.ReadOnlyHeap = true
 					case "callback":
 						cur.Modifies["callback:"+strings.TrimSpace(rc.text)] = true
 					case "witness":
